@@ -156,7 +156,7 @@ impl Scenario for C19 {
             kill_first: r.chance(1, 2),
             tick_ms: *r.pick(&[1_000u64, 5_000, 9_000, 15_000, 15_000, 60_000]),
             frames,
-            fatal: (*r.pick(&["", "", "overlong", "eof_in_frame", "close", "reset"])).to_string(),
+            fatal: (*r.pick(&["", "", "", "overlong", "eof_in_frame", "close", "reset", "stall_in_frame"])).to_string(),
             reconnect: r.chance(1, 2),
             local_sends: *r.pick(&[0u32, 0, 5, 20]),
             local_bad_sends: r.chance(1, 3),
@@ -200,7 +200,7 @@ impl Scenario for C19 {
             components_stubbed: &["TCP (SimNet)", "EPMD (stub)", "remote node (scripted peer, independent encoder)"],
             assumptions: &["mid-frame delays stay below the read timeout; only idle gaps are long", "the peer's ticks are what a conforming OTP node sends (zero-length frames at its tick period)"],
             fault_prefixes: &["fault.", "net."],
-            expected_probes: &["probe.c19.delivered_send", "probe.c19.delivered_reg_send", "probe.c19.delivered_exit", "probe.c19.delivered_mon_exit", "probe.c19.rpc_reply_delivered", "probe.c19.dropped_unknown_recipient", "probe.c19.survived_junk", "probe.c19.survived_quiet_period", "probe.c19.deregistered_after_fatal", "probe.c19.reconnected", "probe.c19.checkpoint_ok", "probe.c19.near_miss_not_taken_as_reply", "probe.c19.killed_process_prefix_ok", "probe.c19.long_junk_run", "probe.c19.burst_above_mailbox_capacity", "probe.c19.local_operation_failed_without_io", "probe.c19.name_changed_hands", "probe.c19.notices_behind_a_full_mailbox"],
+            expected_probes: &["probe.c19.delivered_send", "probe.c19.delivered_reg_send", "probe.c19.delivered_exit", "probe.c19.delivered_mon_exit", "probe.c19.rpc_reply_delivered", "probe.c19.dropped_unknown_recipient", "probe.c19.survived_junk", "probe.c19.survived_quiet_period", "probe.c19.deregistered_after_fatal", "probe.c19.reconnected", "probe.c19.checkpoint_ok", "probe.c19.near_miss_not_taken_as_reply", "probe.c19.killed_process_prefix_ok", "probe.c19.long_junk_run", "probe.c19.burst_above_mailbox_capacity", "probe.c19.local_operation_failed_without_io", "probe.c19.name_changed_hands", "probe.c19.notices_behind_a_full_mailbox", "probe.c19.stall_inside_a_frame_beyond_the_read_timeout"],
         }
     }
 }
@@ -579,6 +579,22 @@ async fn peer_conn(
                 let cut = 1 + (p.salt as usize % (good.len() - 1));
                 let _ = tx.send(Cmd::TruncatedThenClose(good[..cut].to_vec()));
             }
+            "stall_in_frame" => {
+                // the peer stops in the middle of a frame for longer than the read timeout and then carries on.
+                // What is still to come of that frame happens to look like a frame of its own (a message for a
+                // live process inside the payload): whatever the receiver does about the stall, it must not
+                // take payload bytes for a frame.
+                let live = if p.kill_first { 1 } else { 0 };
+                let inner = wire::frame4(&wire::pass_through(&Val::tuple(vec![Val::int(2), Val::atom(""), pids[live].clone()]), Some(&Val::tuple(vec![Val::atom("remote"), Val::atom("smuggled")]))));
+                let nobody = Val::Pid { node: SUT_NAME.to_string(), id: 900_000, serial: 7, creation: 3 };
+                let outer = wire::frame4(&wire::pass_through(&Val::tuple(vec![Val::int(2), Val::atom(""), nobody]), Some(&Val::Bin(inner.clone()))));
+                let cut = outer.len() - inner.len();
+                ticker.abort();
+                let _ = tx.send(Cmd::Frame(outer[..cut].to_vec()));
+                tokio::time::sleep(Duration::from_millis(READ_TIMEOUT_MS + 2_000 + margin_ms(&p))).await;
+                let _ = tx.send(Cmd::Frame(outer[cut..].to_vec()));
+                w.stat("probe.c19.stall_inside_a_frame_beyond_the_read_timeout");
+            }
             "close" => {
                 let _ = tx.send(Cmd::Close);
             }
@@ -778,7 +794,11 @@ async fn scenario(w: &Arc<World>, p: &Plan) {
     }
     let _ = local_task.await;
 
-    if !p.fatal.is_empty() {
+    if p.fatal == "stall_in_frame" {
+        // stopping after the read timeout and waiting the stall out are both fine; what counts is that no
+        // payload byte is taken for a frame (checked with the deliveries below)
+        tokio::time::sleep(Duration::from_millis(2 * READ_TIMEOUT_MS + 3 * m + 5_000)).await;
+    } else if !p.fatal.is_empty() {
         // deregistered within a bounded time after the fatal event
         tokio::time::sleep(Duration::from_millis(m + 200)).await;
         if node.connections().contains_key(PEER_NAME) {
